@@ -92,6 +92,7 @@ extern "C" const char *__lsan_default_options()
 
 /* ------------------------------------------------------------------------ */
 /* step budget                                                              */
+static bool g_isolate = false;  /* the running case asked for a process of its own */
 static long g_budget = 200000;
 static long g_steps = 0;
 static bool g_budget_hit = false;
@@ -974,6 +975,15 @@ static std::string run_op(const std::vector<std::string>& a)
   }
   if (op == "unban") { PluginManager::instance().unbanPlugin(hexdec(a[1])); return "{\"r\":\"ok\"}"; }
   if (op == "clearperm") { PluginManager::instance().clearPermissions(); return "{\"r\":\"ok\"}"; }
+  if (op == "vlog")
+  {
+    /* fetch and reset the event log of the verification modules */
+    const char * e = getenv("VMOD_LOG_FD");
+    std::string l = e ? read_fd(atoi(e)) : std::string();
+    return "{\"r\":\"ok\",\"log\":" + jstr(l) + "}";
+  }
+  if (op == "isolate") { g_isolate = true; return "{\"r\":\"ok\"}"; }
+  if (op == "deinit") { bloc_deinit_plugins(); return "{\"r\":\"ok\"}"; }
   if (op == "leakcheck")
   {
     off_t before = lseek(2, 0, SEEK_END);
@@ -1003,6 +1013,11 @@ static void child_main(const std::vector<Case>& cases, size_t start, int wfd, lo
   FILE * w = fdopen(wfd, "w");
   bloc_verif_point_cb = &point_cb;
   signal(SIGVTALRM, on_vtalrm);
+  {
+    int lfd = memfd_create("vmodlog", 0);
+    char b[32]; snprintf(b, sizeof(b), "%d", lfd);
+    setenv("VMOD_LOG_FD", b, 1);
+  }
   for (size_t i = start; i < cases.size(); ++i)
   {
     const Case& c = cases[i];
@@ -1033,7 +1048,7 @@ static void child_main(const std::vector<Case>& cases, size_t start, int wfd, lo
     free_all();
     fprintf(w, "R %zu %s\n", i, line.c_str());
     fflush(w);
-    if (!g_ubsan.empty() || leak)
+    if (!g_ubsan.empty() || leak || g_isolate)
     {
       /* retire: UBSan reports a location once per process, a leak is reported forever */
       fprintf(w, "Q %zu\n", i);
